@@ -180,6 +180,221 @@ func (s *vfSpec) rollback(n int) bool {
 	return true
 }
 
+// ---- reference for two LIVE views on one TState -----------------------------------------------
+//
+// Independent of the view code: every view is an overlay (key -> written value / deleted) with
+// one overlay snapshot per checkpoint; a read goes overlay -> CURRENT block map -> parent, the
+// fall-through order of the property statement, so what another view committed meanwhile is
+// seen at once. A write that makes the key equal to what lies underneath leaves no overlay entry.
+
+type vfOpt struct {
+	present bool
+	v       string
+}
+
+type vfLayer struct {
+	pend    map[string]vfOpt
+	snaps   []map[string]vfOpt
+	can     func(k string, need state.Permissions) bool
+	foreign map[string]bool // keys another view committed while this one was open
+}
+
+func vfCloneOpt(m map[string]vfOpt) map[string]vfOpt {
+	c := make(map[string]vfOpt, len(m))
+	for k, v := range m {
+		c[k] = v
+	}
+	return c
+}
+
+func (e *vfExec) refUnder(k string) vfOpt {
+	if o, ok := e.refBlock[k]; ok {
+		return o
+	}
+	if v, ok := e.store.m[k]; ok {
+		return vfOpt{true, string(v)}
+	}
+	return vfOpt{}
+}
+
+func (e *vfExec) refVisible(l *vfLayer, k string) vfOpt {
+	if o, ok := l.pend[k]; ok {
+		return o
+	}
+	return e.refUnder(k)
+}
+
+func vfShowOpt(o vfOpt) string {
+	if !o.present {
+		return "notfound"
+	}
+	return vfShowVal([]byte(o.v))
+}
+
+// layerStep advances the reference by the line just executed and, while two views are live,
+// judges the real output and the real visible state against it.
+func (e *vfExec) layerStep(f []string, l string, out string) {
+	if len(f) == 0 || out == "bad-op" || out == "panic" {
+		return
+	}
+	judge := e.twoView && !e.layOff
+	stale := func(k string) string {
+		if e.lay != nil && e.lay.foreign[k] {
+			return "stale-read-after-other-view-commit"
+		}
+		return "two-view-mismatch"
+	}
+	newLayer := func() *vfLayer {
+		return &vfLayer{pend: map[string]vfOpt{}, can: e.can(e.keysScope), foreign: map[string]bool{}}
+	}
+	switch f[0] {
+	case "reset":
+		e.lay, e.layOther = nil, nil
+		e.refBlock = map[string]vfOpt{}
+		for k, c := range e.ts.changedKeys { // the block map the sequence starts from
+			if c.HasValue() {
+				e.refBlock[k] = vfOpt{true, string(c.Value())}
+			} else {
+				e.refBlock[k] = vfOpt{}
+			}
+		}
+		e.layOff = len(e.store.fail) > 0
+		return
+	case "view":
+		e.lay, e.layOther = newLayer(), nil
+		return
+	case "view2":
+		e.layOther = e.lay
+		e.lay = newLayer()
+		return
+	case "swap":
+		e.lay, e.layOther = e.layOther, e.lay
+		return
+	}
+	if e.lay == nil || e.layOff {
+		return
+	}
+	L := e.lay
+	want := ""
+	key := ""
+	switch f[0] {
+	case "get":
+		kb, _ := verifh.UnHex(f[1])
+		key = string(kb)
+		if !L.can(key, state.Read) {
+			want = "perm"
+		} else {
+			want = vfShowOpt(e.refVisible(L, key))
+		}
+	case "insert":
+		kb, _ := verifh.UnHex(f[1])
+		vb, _ := vfVal(f[2])
+		key = string(kb)
+		old := e.refVisible(L, key)
+		switch {
+		case !L.can(key, state.Write):
+			want = "perm"
+		case !e.fits(key, vb):
+			want = "badvalue"
+		case old.present && old.v == string(vb):
+			want = "ok"
+		case !old.present && !L.can(key, state.Allocate):
+			want = "perm"
+		default:
+			want = "ok"
+			L.snaps = append(L.snaps, vfCloneOpt(L.pend))
+			L.pend[key] = vfOpt{true, string(vb)}
+			if u := e.refUnder(key); u.present && u.v == string(vb) {
+				delete(L.pend, key)
+			}
+		}
+	case "remove":
+		kb, _ := verifh.UnHex(f[1])
+		key = string(kb)
+		old := e.refVisible(L, key)
+		switch {
+		case !L.can(key, state.Write):
+			want = "perm"
+		case !old.present:
+			want = "ok"
+		default:
+			want = "ok"
+			L.snaps = append(L.snaps, vfCloneOpt(L.pend))
+			L.pend[key] = vfOpt{}
+			if u := e.refUnder(key); !u.present {
+				delete(L.pend, key)
+			}
+		}
+	case "opindex":
+		want = strconv.Itoa(len(L.snaps))
+	case "rollback":
+		n, _ := strconv.Atoi(f[1])
+		want = "done"
+		if n > len(L.snaps) {
+			if judge {
+				e.viol("two-view-mismatch", "%q accepted by the view but the reference has %d checkpoints", l, len(L.snaps))
+			}
+			return
+		}
+		if n < len(L.snaps) {
+			L.pend = L.snaps[n]
+			L.snaps = L.snaps[:n]
+		}
+	case "commit":
+		for k, o := range L.pend {
+			e.refBlock[k] = o
+			if e.layOther != nil {
+				e.layOther.foreign[k] = true
+			}
+		}
+		e.lay, e.layOther = e.layOther, nil
+		if judge {
+			for _, k := range e.universe {
+				c, ok := e.ts.changedKeys[k]
+				ro, rok := e.refBlock[k]
+				same := ok == rok && (!ok || (c.HasValue() == ro.present && (!ro.present || string(c.Value()) == ro.v)))
+				if !same {
+					e.viol("two-view-commit-mismatch", "after %q the block-level entry of key %s differs from the reference", l, verifh.Hex([]byte(k)))
+					break
+				}
+			}
+		}
+		L = e.lay
+		want = ""
+	default:
+		return
+	}
+	if !judge {
+		return
+	}
+	if want != "" && want != out {
+		cls := "two-view-mismatch"
+		if f[0] == "get" {
+			cls = stale(key)
+		}
+		e.viol(cls, "%q returned %s; reading view-pending -> current block map -> parent gives %s", l, out, want)
+	}
+	// whole visible state of the view that is current now
+	if L == nil || e.view == nil {
+		return
+	}
+	for _, k := range e.universe {
+		v, err := e.view.getValue(e.ctx, k)
+		got := vfErr(err)
+		if err == nil {
+			got = vfShowVal(v)
+		}
+		if w := vfShowOpt(e.refVisible(L, k)); got != w {
+			cls := "two-view-mismatch"
+			if L.foreign[k] {
+				cls = "stale-read-after-other-view-commit"
+			}
+			e.viol(cls, "after %q: key %s resolves to %s in the live view; view-pending -> current block map -> parent gives %s", l, verifh.Hex([]byte(k)), got, w)
+			return
+		}
+	}
+}
+
 // ---- executor -------------------------------------------------------------------------------
 
 type vfExec struct {
@@ -199,6 +414,11 @@ type vfExec struct {
 	broken map[string]bool
 	can    func(sc state.Keys) func(k string, need state.Permissions) bool
 	fits   func(k string, v []byte) bool
+
+	// layered reference for histories with two live views (see vfLayer)
+	lay, layOther *vfLayer
+	refBlock      map[string]vfOpt
+	layOff        bool
 
 	pendingV       []vfViol
 	extra          func(f []string) (string, bool) // property-specific extra op lines
@@ -359,6 +579,9 @@ func (e *vfExec) flushViol() {
 func (e *vfExec) exec(l string) {
 	out := e.exec1(l)
 	e.r.Emit(l, out)
+	if e.oracle {
+		e.layerStep(verifh.Fields(l), l, out)
+	}
 	if e.after != nil {
 		e.after(verifh.Fields(l), out)
 	}
